@@ -8,6 +8,8 @@ A *description* is JSON-able:
   {"t":"named","style":"collections"|"typing","fields":[..],"l":[d,...]}
   {"t":"obj","cls":{...class description...},"vals":[[name,d],...],"extra":[[name,d],...]}
   {"t":"iter","k":"IGenerator","consumed":n,"l":[d,...]}
+Round 3: "named" and "obj" descriptions carry the DERIVATION of their class ("derive"), a "dict" may be built through a
+TypedDict class ("td"): see c18_derive.py.
 """
 from __future__ import annotations
 
@@ -17,6 +19,7 @@ import json
 import types
 
 import impl
+import c18_derive as D
 from lib import coq_list, coq_string
 
 COLL = ["KList", "KTuple", "KDeque", "KSet", "KFrozenSet", "KCustomSeq", "KSetSub", "KKeysView", "KValuesView",
@@ -57,6 +60,11 @@ class CustomIterator:
 _custom = None
 
 
+def typing_hints(cls):
+    import typing
+    return typing.get_type_hints(cls)
+
+
 def custom():
     global _custom
     if _custom is None:
@@ -67,81 +75,38 @@ def custom():
 # ------------------------------------------------------------------------------------
 # classes of structured instances
 # ------------------------------------------------------------------------------------
-# class description: {"flavour": "dataclass"|"annotated"|"slots"|"vars", "slots": bool (dataclass only),
-#                     "members": [{"n": name, "cv": bool}], "init": "matching"|"renamed"|"kwargs"|"none"}
-
-def class_source(cd, name="K") -> str:
-    fl, mem = cd["flavour"], cd["members"]
-    inst = [m["n"] for m in mem if not m["cv"]]
-    lines = ["import dataclasses, typing"]
-    if fl == "dataclass":
-        lines.append("@dataclasses.dataclass(slots=True)" if cd.get("slots") else "@dataclasses.dataclass")
-        lines.append(f"class {name}:")
-        for m in mem:
-            lines.append(f"    {m['n']}: typing.ClassVar[int] = 7" if m["cv"] else f"    {m['n']}: typing.Any")
-        if not mem:
-            lines.append("    pass")
-        return "\n".join(lines) + "\n"
-    lines.append(f"class {name}:")
-    body = []
-    if fl == "annotated":
-        for m in mem:
-            body.append(f"    {m['n']}: typing.ClassVar[int] = 7" if m["cv"] else f"    {m['n']}: typing.Any")
-    if fl == "slots":
-        body.append("    __slots__ = (" + "".join(f"'{n}', " for n in inst) + ")")
-    init = cd["init"]
-    if init == "matching":
-        body.append("    def __init__(self" + "".join(f", {n}" for n in inst) + "):")
-        body += [f"        self.{n} = {n}" for n in inst] or ["        pass"]
-    elif init == "renamed":
-        body.append("    def __init__(self" + "".join(f", n{i}" for i in range(len(inst))) + "):")
-        body += [f"        self.{n} = n{i}" for i, n in enumerate(inst)] or ["        pass"]
-    elif init == "kwargs":
-        body.append("    def __init__(self, **kw):")
-        body.append("        for k, v in kw.items(): setattr(self, k, v)")
-    if not body:
-        body.append("    pass")
-    return "\n".join(lines + body) + "\n"
+# class description: {"flavour": "dataclass"|"annotated"|"slots"|"vars", "slots": bool (dataclass, annotated),
+#                     "members": [{"n": name, "cv": bool}], "init": "matching"|"renamed"|"kwargs"|"none",
+#                     "init_ann": bool, "derive": {"kind": ..., "k": ..., "j": ...}}
+#   members = the EFFECTIVE members in declaration order over the MRO (bases first); c18_derive turns (flavour, derive)
+#   into the chain of classes, its source and the facts the code can read.
+class_source = D.class_source
+class_facts = D.class_facts
 
 
-def class_facts(cd):
-    """What the code can read from the class, derived from the description alone."""
-    fl, mem = cd["flavour"], cd["members"]
-    inst = [m["n"] for m in mem if not m["cv"]]
-    alln = [m["n"] for m in mem]
-    if fl == "dataclass":
-        return {"flavour": "FDataclass", "dataclass": True, "dc_fields": inst, "hints": alln, "sig": inst,
-                "slots": inst if cd.get("slots") else None, "has_dict": not cd.get("slots")}
-    sig = {"matching": inst, "renamed": [f"n{i}" for i in range(len(inst))], "kwargs": ["kw"], "none": []}[cd["init"]]
-    if fl == "annotated":
-        return {"flavour": "FAnnotated", "dataclass": False, "dc_fields": [], "hints": alln, "sig": sig,
-                "slots": None, "has_dict": True}
-    if fl == "slots":
-        return {"flavour": "FSlots", "dataclass": False, "dc_fields": [], "hints": [], "sig": sig,
-                "slots": inst, "has_dict": False}
-    return {"flavour": "FVars", "dataclass": False, "dc_fields": [], "hints": [], "sig": sig,
-            "slots": None, "has_dict": True}
+def live_facts(cls):
+    """the same facts asked from the interpreter (never from typelib)"""
+    import dataclasses
+    import inspect
+    import typing
+    sl = getattr(cls, "__slots__", None)
+    mro_slots = []
+    for k in reversed(cls.__mro__):
+        own = k.__dict__.get("__slots__", ())
+        mro_slots += [x for x in ((own,) if isinstance(own, str) else own) if x not in mro_slots]
+    return {"dataclass": dataclasses.is_dataclass(cls),
+            "dc_fields": [x.name for x in dataclasses.fields(cls)] if dataclasses.is_dataclass(cls) else [],
+            "hints": list(typing.get_type_hints(cls)),
+            "sig": list(inspect.signature(cls).parameters),
+            "slots_attr": None if sl is None else ([sl] if isinstance(sl, str) else list(sl)),
+            "slots": None if sl is None else mro_slots,
+            "has_dict": any("__dict__" in k.__dict__ for k in cls.__mro__[:-1])}
 
 
 def check_class_facts(cls, cd):
     """Cross-check the description-derived facts with the interpreter (never with typelib)."""
-    import dataclasses
-    import inspect
-    import typing
-    f = class_facts(cd)
-    probs = []
-    if dataclasses.is_dataclass(cls) != f["dataclass"]:
-        probs.append("is_dataclass")
-    if f["dataclass"] and [x.name for x in dataclasses.fields(cls)] != f["dc_fields"]:
-        probs.append("dataclass fields")
-    if list(typing.get_type_hints(cls)) != f["hints"]:
-        probs.append("hints")
-    if [p for p in inspect.signature(cls).parameters] != f["sig"]:
-        probs.append(f"signature {list(inspect.signature(cls).parameters)} != {f['sig']}")
-    sl = getattr(cls, "__slots__", None)
-    if (None if sl is None else list(sl)) != f["slots"]:
-        probs.append("slots")
-    return probs
+    f, live = class_facts(cd), live_facts(cls)
+    return [f"{k} {live[k]} != {f[k]} ({D.family(cd)}/{D.kind_of(cd)})" for k in live if live[k] != f[k]]
 
 
 # ------------------------------------------------------------------------------------
@@ -202,6 +167,23 @@ class Built:
             dd = dict(items)
             d["l"] = [[self.desc_of(a), self.desc_of(b)] for a, b in dd.items()]   # duplicate keys collapse
             k = d["k"]
+            if d.get("td"):
+                # built through a TypedDict class (possibly derived): the instance is a plain dict at runtime
+                td = d["td"]
+                keys = [a for a in dd if isinstance(a, str) and a.isidentifier()]
+                ck = json.dumps(["td", td, keys])
+                if ck not in self.classes:
+                    self.n += 1
+                    src = D.typeddict_source(keys, td["kind"], max(0, min(td.get("k", 0), len(keys))), f"TD{self.n}")
+                    self.sources.append(src)
+                    self.classes[ck] = getattr(impl.new_module(f"verif_c18_td{self.n}", src), f"TD{self.n}")
+                cls = self.classes[ck]
+                x = cls(dd)
+                if type(x) is not dict or list(x.items()) != list(dd.items()):
+                    self.problems.append(f"{cls.__name__}: a TypedDict instance is not the plain dict of its items")
+                if set(typing_hints(cls)) != set(keys):
+                    self.problems.append(f"{cls.__name__}: TypedDict keys {sorted(typing_hints(cls))} != {sorted(keys)}")
+                return x
             if k == "MDict":
                 return dd
             if k == "MOrderedDict":
@@ -214,19 +196,20 @@ class Built:
                 return c.CustomMapping(dd)
             raise ValueError(k)
         if t == "named":
-            ck = json.dumps(["named", d.get("style"), d["fields"]])
+            kind = d.get("derive") or "direct"
+            ck = json.dumps(["named", d.get("style"), d["fields"], kind])
             if ck in self.classes:
                 return self.classes[ck](*[self.build(e) for e in d["l"]])
             self.n += 1
             name = f"NT{self.n}"
-            if d.get("style") == "typing":
-                src = "import typing\nclass %s(typing.NamedTuple):\n%s" % (
-                    name, "".join(f"    {f}: typing.Any\n" for f in d["fields"]) or "    pass\n")
-            else:
-                src = "import collections\n%s = collections.namedtuple(%r, %r)\n" % (name, name, d["fields"])
+            src = D.named_source("typing" if d.get("style") == "typing" else "collections", d["fields"], kind, name)
             mod = impl.new_module(f"verif_c18_nt{self.n}", src)
             self.sources.append(src)
             cls = getattr(mod, name)
+            if list(cls._fields) != list(d["fields"]) or not issubclass(cls, tuple):
+                self.problems.append(f"{name}: _fields {cls._fields} != {d['fields']} ({kind})")
+            if kind != "direct" and cls.__bases__ == (tuple,):
+                self.problems.append(f"{name}: not a derived class ({kind})")
             self.reg[cls] = ("named", d["fields"])
             self.classes[ck] = cls
             return cls(*[self.build(e) for e in d["l"]])
@@ -297,7 +280,7 @@ class Built:
                 return {"t": "named", "fields": list(info), "l": [self.desc_of(e) for e in tuple.__iter__(o)]}
             cd = info
             f = class_facts(cd)
-            slotvals = [[n, self.desc_of(getattr(o, n))] for n in (f["slots"] or []) if hasattr(o, n)]
+            slotvals = [[n, self.desc_of(getattr(o, n))] for n in (f["slots"] or []) if hasattr(o, n)]   # MRO order
             dd = getattr(o, "__dict__", None)
             return {"t": "obj", "cls": cd, "live": True, "slotvals": slotvals,
                     "dict": None if dd is None else [[k, self.desc_of(v)] for k, v in dd.items()],
@@ -325,9 +308,10 @@ def obj_parts(d):
     vals = [list(x) for x in d["vals"]]
     extra = [list(x) for x in d.get("extra", [])]
     cvs = [[m["n"], {"t": "int", "v": 7}] for m in cd["members"] if m["cv"]]
-    if f["has_dict"]:
-        return [], vals + extra, cvs
-    return vals, None, cvs
+    slotted = set(f["slots"] or [])
+    sv = [v for v in vals if v[0] in slotted]              # (members are in MRO order: so are the slots)
+    dv = [v for v in vals if v[0] not in slotted] + extra
+    return sv, (dv if f["has_dict"] else None), cvs
 
 
 # ------------------------------------------------------------------------------------
@@ -384,6 +368,22 @@ def size(d) -> int:
     return 1
 
 
+def weight(d) -> int:
+    """shrink order: size first, then a derived class / TypedDict / annotated __init__ weighs more than a direct one"""
+    w = 10 * size(d)
+    t = d["t"]
+    if t == "named":
+        w += (d.get("derive") or "direct") != "direct"
+    if t == "obj":
+        w += bool(d["cls"].get("derive")) + bool(d["cls"].get("init_ann")) + bool(d["cls"].get("slots_str"))
+        w += sum(5 * (size(e) - 1) + (e != {"t": "int", "v": 0}) for _, e in d.get("vals", []))
+    if t == "dict":
+        w += bool(d.get("td"))
+    if t in ("coll", "iter", "named"):
+        w += sum(weight(e) - 10 * size(e) for e in d["l"])
+    return w
+
+
 # ------------------------------------------------------------------------------------
 # generators
 # ------------------------------------------------------------------------------------
@@ -423,10 +423,14 @@ def g_elem(rng, hashable=False, depth=0):
     if k == "dict":
         return {"t": "dict", "k": "MDict", "l": [[g_atom(rng), g_elem(rng, False, depth + 1)] for _ in range(n)]}
     if k == "named":
-        return {"t": "named", "style": "collections", "fields": ["f%d" % i for i in range(n)], "l": sub}
+        return {"t": "named", "style": rng.choice(["collections", "typing"]), "fields": ["f%d" % i for i in range(n)],
+                "l": sub, "derive": rng.choice(D.NAMED_KINDS)}
     if k == "obj":
-        return {"t": "obj", "cls": {"flavour": "vars", "members": [{"n": "a", "cv": False}], "init": "matching"},
-                "vals": [["a", g_atom(rng)]], "extra": []}
+        if rng.random() < 0.5:
+            return {"t": "obj", "cls": {"flavour": "vars", "members": [{"n": "a", "cv": False}], "init": "matching"},
+                    "vals": [["a", g_atom(rng)]], "extra": []}
+        fl, sl, kind = rng.choice(D.all_obj_kinds())
+        return g_shape(rng, fl, sl, kind, [{"n": "a", "cv": False}, {"n": "b", "cv": False}], [g_atom(rng), g_atom(rng)])
     return {"t": "coll", "k": k, "l": sub}
 
 
@@ -471,6 +475,44 @@ def g_members(rng, allow_cv, allow_private=True):
     return [{"n": n, "cv": bool(allow_cv and rng.random() < 0.2)} for n in chosen]
 
 
+def g_derive(rng, cd, kind=None):
+    """record a derivation of the class (round 3): kind, split point k, overridden member j"""
+    kinds = D.OBJ_KINDS[D.family(cd)]
+    if kind is None:
+        kind = "direct" if rng.random() < 0.45 else rng.choice(kinds[1:])
+    n = len(cd["members"])
+    if kind.endswith("-override") and n == 0:
+        kind = {"dc-sub-override": "dc-sub-dec", "pl-sub-override": "pl-sub-empty"}[kind]
+    if kind == "direct":
+        cd.pop("derive", None)
+        return cd
+    spec = {"kind": kind}
+    if kind.endswith("-add"):
+        spec["k"] = rng.randint(1, n - 1) if n >= 2 and rng.random() < 0.8 else rng.randint(0, n)
+    if kind.endswith("-override"):
+        spec["j"] = rng.randrange(n)
+    cd["derive"] = spec
+    return cd
+
+
+def g_shape(rng, fl, sl, kind, members, values, init=None):
+    """an instance of the given (flavour, slots flag, derivation kind) with the given members / field values"""
+    cd = {"flavour": fl, "members": [dict(m) for m in members]}
+    if fl in ("slots", "vars"):
+        cd["members"] = [dict(m, cv=False) for m in members]
+    if fl == "dataclass":
+        cd["slots"], cd["init"] = bool(sl), "matching"
+    else:
+        cd["init"] = init or rng.choice(["matching", "matching", "renamed", "kwargs", "none"])
+        if fl == "annotated":
+            cd["slots"] = bool(sl)
+        if cd["init"] in ("matching", "renamed") and rng.random() < 0.3:
+            cd["init_ann"] = True
+    g_derive(rng, cd, kind)
+    inst = [m["n"] for m in cd["members"] if not m["cv"]]
+    return {"t": "obj", "cls": cd, "vals": [[n, v] for n, v in zip(inst, values)], "extra": []}
+
+
 def g_obj(rng):
     fl = rng.choice(["dataclass", "dataclass", "annotated", "annotated", "slots", "slots", "vars", "vars"])
     cd = {"flavour": fl, "members": g_members(rng, fl in ("dataclass", "annotated"))}
@@ -481,9 +523,16 @@ def g_obj(rng):
         cd["init"] = rng.choice(["matching", "matching", "renamed", "kwargs", "none"])
         if fl == "annotated" and not cd["members"]:
             cd["members"] = [{"n": "a", "cv": False}]
+        if fl == "annotated":
+            cd["slots"] = rng.random() < 0.3            # annotated __slots__ class (C13's pl-slots)
         if fl in ("slots", "vars"):
             for m in cd["members"]:
                 m["cv"] = False
+        if cd["init"] in ("matching", "renamed") and rng.random() < 0.25:
+            cd["init_ann"] = True                       # hints only in the signature of __init__
+        if (fl == "slots" or cd.get("slots")) and rng.random() < 0.3:
+            cd["slots_str"] = True                      # __slots__ = 'key' wherever a class declares one slot
+    g_derive(rng, cd)
     inst = [m["n"] for m in cd["members"] if not m["cv"]]
     if cd.get("init") == "kwargs" and any(n.startswith("__") for n in inst):
         cd["init"] = "none"
@@ -494,6 +543,8 @@ def g_obj(rng):
         cd["members"] = [m for m in cd["members"] if not m["n"].startswith("__")]
         inst = [m["n"] for m in cd["members"] if not m["cv"]]
     vals = [[n, g_elem(rng, False, 1)] for n in inst]
+    if vals and rng.random() < 0.35:
+        vals[0][1] = g_pairish(rng)
     if vals and cd["flavour"] in ("annotated", "slots") and cd["init"] in ("none", "kwargs") and rng.random() < 0.25:
         del vals[rng.randrange(len(vals))]          # malformed: a declared field is never set (getattr raises)
     extra = []
@@ -511,11 +562,130 @@ def g_named(rng):
     l = [g_elem(rng, False, 1) for _ in range(n)]
     if n and rng.random() < 0.5:
         l[0] = rng.choice([{"t": "str", "v": "ab"}, g_pair(rng), g_pair(rng, True),
-                           {"t": "coll", "k": "KList", "l": [g_atom(rng), g_atom(rng)]}])
-    return {"t": "named", "style": rng.choice(["collections", "typing"]), "fields": fields, "l": l}
+                           {"t": "coll", "k": "KList", "l": [g_atom(rng), g_atom(rng)]}, g_pairish(rng)])
+    d = {"t": "named", "style": rng.choice(["collections", "typing"]), "fields": fields, "l": l}
+    if rng.random() < 0.55:
+        d["derive"] = rng.choice(D.NAMED_KINDS[1:])
+    return d
+
+
+# ---- round 3: adversarial first-field values and the derivation stratum ----
+def _i(v):
+    return {"t": "int", "v": v}
+
+
+def _s(v):
+    return {"t": "str", "v": v}
+
+
+PAIRISH = [
+    _s("ab"), _s("ba"),
+    {"t": "coll", "k": "KTuple", "l": [_s("a"), _i(1)]},
+    {"t": "coll", "k": "KTuple", "l": [_s("ab"), _s("ba")]},
+    {"t": "coll", "k": "KList", "l": [_s("b"), _i(2)]},
+    {"t": "coll", "k": "KList", "l": [_i(1), _i(2)]},
+    {"t": "dict", "k": "MDict", "l": [[_s("a"), _i(1)], [_s("b"), _i(2)]]},
+    {"t": "bytes", "v": [120, 121]},
+    {"t": "coll", "k": "KList", "l": [{"t": "coll", "k": "KTuple", "l": [_s("a"), _i(1)]},
+                                      {"t": "coll", "k": "KTuple", "l": [_s("b"), _i(2)]}]},
+    {"t": "coll", "k": "KFrozenSet", "l": [_i(1), _i(2)]},
+]
+MEMBER_SHAPES = [
+    [{"n": "a", "cv": False}, {"n": "b", "cv": False}],
+    [{"n": "a", "cv": False}, {"n": "_p", "cv": False}, {"n": "tag", "cv": True}, {"n": "b", "cv": False}],
+    [{"n": "key", "cv": False}],
+]
+
+
+def g_pairish(rng):
+    import copy
+    return copy.deepcopy(rng.choice(PAIRISH))
+
+
+def g_derived_instance(rng, nfields=None):
+    """an instance of a DERIVED (or, as control, direct) named tuple / structured class whose first field is pair-like"""
+    import copy
+    if rng.random() < 0.4:
+        n = nfields if nfields is not None else rng.choice([1, 2, 2, 2, 3])
+        fields = ["a", "b", "c"][:n]
+        return {"t": "named", "style": rng.choice(["collections", "typing"]), "fields": fields,
+                "l": [g_pairish(rng)] + [g_atom(rng) for _ in range(n - 1)], "derive": rng.choice(D.NAMED_KINDS)}
+    fl, sl, kind = rng.choice(D.all_obj_kinds())
+    members = copy.deepcopy(rng.choice(MEMBER_SHAPES))
+    inst = [m for m in members if not (m["cv"] and fl in ("dataclass", "annotated"))]
+    return g_shape(rng, fl, sl, kind, members, [g_pairish(rng)] + [g_atom(rng) for _ in inst])
+
+
+def g_typeddict(rng):
+    keys = rng.sample(["a", "b", "c", "key", "_p", "value"], rng.choice([0, 1, 2, 2, 3]))
+    l = [[_s(k), g_elem(rng, False, 1)] for k in keys]
+    if l and rng.random() < 0.5:
+        l[0][1] = g_pairish(rng)
+    kind = rng.choice(D.TD_KINDS)
+    return {"t": "dict", "k": "MDict", "l": l, "td": {"kind": kind, "k": rng.randint(0, len(keys))}}
+
+
+def g_derived_case(rng):
+    """the derivation stratum: derived instances, containers and one-shot iterators of them, TypedDict instances"""
+    r = rng.random()
+    if r < 0.5:
+        return g_derived_instance(rng)
+    if r < 0.6:
+        return g_typeddict(rng)
+    n = rng.choice([1, 1, 2, 3])
+    first = g_derived_instance(rng, nfields=rng.choice([2, 2, 3]))
+    l = [first] + [g_derived_instance(rng) if rng.random() < 0.5 else copy_of(first) for _ in range(n - 1)]
+    if r < 0.85:
+        return {"t": "iter", "k": rng.choice([k for k in ITERS if k != "IZipObj"]), "consumed": 0, "l": l}
+    return {"t": "coll", "k": rng.choice(["KList", "KTuple", "KDeque", "KCustomSeq", "KCustomIterable", "KValuesView",
+                                           "KCustomCollection"]), "l": l}
+
+
+def copy_of(d):
+    import copy
+    return copy.deepcopy(d)
+
+
+def catalogue():
+    """exhaustive small enumeration: every (flavour, derivation kind) x member shape x a rotating pair-like first field,
+    as the instance itself and as the only element of a generator (always part of correspondence and oracle)"""
+    import copy
+    import random
+    rng = random.Random(18)
+    out, i = [], 0
+    for style in ("typing", "collections"):
+        for kind in D.NAMED_KINDS:
+            for fields in (["a", "b"], ["code", "count", "x1"], ["key"]):
+                for rep in range(2):
+                    i += 1
+                    first = copy.deepcopy(PAIRISH[i % len(PAIRISH)])
+                    d = {"t": "named", "style": style, "fields": fields, "derive": kind,
+                         "l": [first] + [_i(j) for j in range(1, len(fields))]}
+                    out.append(d)
+                    if rep == 0:
+                        out.append({"t": "iter", "k": ["IGenerator", "IListIter", "ICustomIterator", "IMapObj"][i % 4],
+                                    "consumed": 0, "l": [copy.deepcopy(d)]})
+    for fl, sl, kind in D.all_obj_kinds():
+        for members in MEMBER_SHAPES:
+            for init in (["matching"] if fl == "dataclass" else ["matching", "none"]):
+                i += 1
+                first = copy.deepcopy(PAIRISH[i % len(PAIRISH)])
+                d = g_shape(rng, fl, sl, kind, copy.deepcopy(members), [first, _i(1), _i(2), _i(3)], init=init)
+                if len(members) == 1 and fl in ("slots", "annotated") and init == "none":
+                    d["cls"]["slots_str"] = True
+                out.append(d)
+                if init == "matching":
+                    out.append({"t": "iter", "k": ["IGenerator", "IListIter", "ICustomIterator", "IMapObj"][i % 4],
+                                "consumed": 0, "l": [copy.deepcopy(d)]})
+    for kind in D.TD_KINDS:
+        out.append({"t": "dict", "k": "MDict", "td": {"kind": kind, "k": 1},
+                    "l": [[_s("a"), copy.deepcopy(PAIRISH[0])], [_s("b"), _i(1)], [_s("_p"), _i(2)]]})
+    return out
 
 
 def g_case(rng):
+    if rng.random() < 0.22:
+        return g_derived_case(rng)
     r = rng.random()
     if r < 0.14:
         k = rng.choice(MAPS)
@@ -548,10 +718,21 @@ def g_case(rng):
 
 def label(d) -> str:
     t = d["t"]
-    if t in ("coll", "dict", "iter"):
-        return f"{t}:{d['k']}"
     if t == "obj":
-        return f"obj:{d['cls']['flavour']}" + ("+slots" if d["cls"].get("slots") else "") + ":" + d["cls"]["init"]
+        cd = d["cls"]
+        return (f"obj:{cd['flavour']}" + ("+slots" if cd.get("slots") else "") + ("+str" if cd.get("slots_str") else "") +
+                ":" + cd["init"] +
+                ("+ann" if cd.get("init_ann") else "") + ("" if D.kind_of(cd) == "direct" else "/" + D.kind_of(cd)))
+    if t == "named":
+        return "named" + ("" if (d.get("derive") or "direct") == "direct" else "/" + d["derive"])
+    if t == "dict" and d.get("td"):
+        return "dict:TypedDict/" + d["td"]["kind"]
+    if t in ("coll", "iter"):
+        der = any((e["t"] == "named" and (e.get("derive") or "direct") != "direct") or
+                  (e["t"] == "obj" and e["cls"].get("derive")) for e in d["l"])
+        return f"{t}:{d['k']}" + ("[of derived instances]" if der else "")
+    if t == "dict":
+        return f"{t}:{d['k']}"
     return t
 
 
